@@ -65,6 +65,12 @@ pub struct CaseOut {
 /// Runs script[..step], then script[step] with the fault (or counting only), then the follow-ups.
 /// `second`: optional second fault, injected into the follow-up commit `second.0`.
 pub fn run_case(script: &Script, path: &str, step: usize, fault: Option<Fault>, second: Option<(usize, Fault)>) -> CaseOut {
+    run_case_r(script, path, step, fault, second, false)
+}
+
+/// `with_reader`: a read transaction opened on the pre-state right before the target commit stays
+/// open across the failure and the follow-up transactions and must keep showing that state.
+pub fn run_case_r(script: &Script, path: &str, step: usize, fault: Option<Fault>, second: Option<(usize, Fault)>, with_reader: bool) -> CaseOut {
     let mut out = CaseOut { kinds: vec![], violations: vec![], outcome: "none" };
     let mut r = match Runner::new(path, script.cfg.clone()) {
         Ok(r) => r,
@@ -81,6 +87,9 @@ pub fn run_case(script: &Script, path: &str, step: usize, fault: Option<Fault>, 
         }
     }
     let pre = r.model.clone();
+    if with_reader {
+        r.step(&Action::OpenReader, &Oracles::NONE);
+    }
     match fault {
         Some(f) => r.fault_next_commit = Some(f),
         None => r.count_next_commit = true,
@@ -91,7 +100,7 @@ pub fn run_case(script: &Script, path: &str, step: usize, fault: Option<Fault>, 
     if r.poisoned {
         return out;
     }
-    let full = Oracles { rets: true, dump_after: true, fileck: true, dbcheck: true, reopen_copy: true, ..Oracles::NONE };
+    let full = Oracles { rets: true, dump_after: true, fileck: true, dbcheck: true, reopen_copy: true, readers_frozen: with_reader, ..Oracles::NONE };
     if fault.is_none() {
         out.outcome = "no-fault";
         return out;
@@ -174,6 +183,12 @@ pub fn run_case(script: &Script, path: &str, step: usize, fault: Option<Fault>, 
         }
     }
     // and after reopening
+    if with_reader {
+        for mut x in r.step(&Action::CloseReader(0), &Oracles::NONE) {
+            x.class = format!("close_reader:{}", x.class);
+            out.violations.push(x);
+        }
+    }
     let v = r.step(&Action::Reopen, &full);
     for mut x in v {
         x.class = format!("reopen:{}", x.class);
@@ -257,6 +272,15 @@ pub fn worker(idx: usize) {
                     }
                     for v in out.violations {
                         viols.push(json!([ci, k.name(), mname, v.class, v.detail, Value::Null]));
+                    }
+                    if sc.cfg.num_pages >= 64 {
+                        // the same case with a reader that was opened before the failing commit
+                        cases += 1;
+                        let outr = run_case_r(sc, &path2, step, Some(f), None, true);
+                        *outcomes.entry(format!("{}:{}+reader", k.name(), outr.outcome)).or_insert(0) += 1;
+                        for v in outr.violations {
+                            viols.push(json!([ci, k.name(), mname, format!("with_reader:{}", v.class), format!("(a reader opened before the failing commit is kept open) {}", v.detail), "reader"]));
+                        }
                     }
                     if pairs && kinds.len() <= 14 {
                         // second fault in the second follow-up commit (the large one), at every call
@@ -347,7 +371,7 @@ pub fn run(check: &mut Check) {
     found.sort_by(|a, b| (a.0, a.1, a.2, &a.4).cmp(&(b.0, b.1, b.2, &b.4)));
     for (si, step, call, kind, mode, class, detail, second) in found {
         let sc = &scs[si];
-        check.violation(&class, &format!("[script {} commit at step {}: call #{} ({}) fails with {}{}] {}", sc.name, step, call, kind, mode, if second.is_null() { String::new() } else { format!(", second fault EIO at call #{} of follow-up 2", second) }, detail), || {
+        check.violation(&class, &format!("[script {} commit at step {}: call #{} ({}) fails with {}{}] {}", sc.name, step, call, kind, mode, if second.is_null() || second.as_str() == Some("reader") { String::new() } else { format!(", second fault EIO at call #{} of follow-up 2", second) }, detail), || {
             json!({"engine": "faultx", "tier": tier.name(), "script": sc.name, "script_index": si, "step": step, "call": call, "kind": kind, "mode": mode, "second": second, "actions": sc.actions.iter().map(|a| a.to_json()).collect::<Vec<_>>()})
         });
     }
@@ -374,6 +398,7 @@ pub fn replay(v: &Value) -> i32 {
     let kind = Kind::from_name(v["kind"].as_str().unwrap_or("write")).unwrap_or(Kind::Write);
     let mode_name = v["mode"].as_str().unwrap_or("EIO").to_string();
     let second = v["second"].as_u64();
+    let with_reader = v["second"].as_str() == Some("reader");
     let r = crate::fresh::on_fresh_thread(move || {
         let scs = scripts(tier);
         let sc = &scs[si];
@@ -388,7 +413,7 @@ pub fn replay(v: &Value) -> i32 {
             }
         };
         let f = Fault { call_index: call, mode };
-        let out = run_case(sc, &path, step, Some(f), second.map(|cj| (1usize, Fault { call_index: cj, mode: FaultMode::Errno(libc::EIO) })));
+        let out = run_case_r(sc, &path, step, Some(f), second.map(|cj| (1usize, Fault { call_index: cj, mode: FaultMode::Errno(libc::EIO) })), with_reader);
         println!("outcome of the failed commit: {}", out.outcome);
         for x in &out.violations {
             println!("   !! {}: {}", x.class, x.detail);
